@@ -621,10 +621,132 @@ def l2_cores(ctx, cycles, dis):
 
 
 # ----------------------------------------------------------------------------------------------------------
+# Corpus of witnesses (run first) and finding probes
+# ----------------------------------------------------------------------------------------------------------
+
+def build_ast(a, sigs):
+    from migen.fhdl.structure import _Operator, _Slice, Cat, Replicate, Constant, Mux
+    k = a[0]
+    if k == "sig":
+        return sigs[a[1]]
+    if k == "const":
+        return Constant(a[1], (a[2], a[3]))
+    if k == "op":
+        return _Operator({"<<": "<<<", ">>": ">>>"}.get(a[1], a[1]), [build_ast(x, sigs) for x in a[2:]])
+    if k == "mux":
+        return Mux(*[build_ast(x, sigs) for x in a[1:]])
+    if k == "slice":
+        return _Slice(build_ast(a[1], sigs), a[2], a[3])
+    if k == "cat":
+        return Cat(*[build_ast(x, sigs) for x in a[1:]])
+    if k == "rep":
+        return Replicate(build_ast(a[1], sigs), a[2])
+    raise ValueError(k)
+
+
+def run_witness(ctx, w):
+    """Returns dict(simulator, verilog, lean_verilog|None, text)."""
+    from migen import Signal, Module
+    sigs = [Signal((n, sg), name_override="s%d" % i) for i, (n, sg) in enumerate(w["sigs"])]
+    e = build_ast(w["expr"], sigs)
+    lw = w["lw"]
+    if w["kind"] == "expr":
+        ids = SigIds()
+        for s in sigs:
+            ids.get(s)
+        ns = FlatNS(ids)
+        text, _ = _generate_expression(ns, e)
+        toks = parse_vexpr(text, ns.names())
+        tree, _ = L.build_vtree(toks)
+        L.v_size(tree)
+        ev = Evaluator([], {})
+        ev.signal_values = {s: v for s, v in zip(sigs, w["env"])}
+        sim = truncate(ev.eval(e), lw, False)
+        benv = {i: v & ((1 << s.nbits) - 1) for i, (s, v) in enumerate(zip(sigs, w["env"]))}
+        gold = L.v_assign_value(tree, benv, lw)
+        lean = None
+        if ctx.lean is not None:
+            ans = ctx.lean.call_batch(["x %d ; %s ; %s ; %s" % (lw, " ".join(ser_expr(e, ids)), " ".join(toks),
+                                                              " ".join(map(str, w["env"])))])[0]
+            parts = [p.split() for p in ans.split(";")]
+            lean = dict(printeq=parts[0][0], storeF=int(parts[1][1]), assignV=int(parts[1][2]), fits=parts[1][3] == "1")
+        return dict(simulator=sim, verilog=gold, lean=lean, text=text)
+    # module: y.eq(expr) through the real convert; original design simulated by the real Simulator
+    from netlist import Netlist
+
+    def build():
+        ss = [Signal((n, sg), name_override="s%d" % i) for i, (n, sg) in enumerate(w["sigs"])]
+        y = Signal(lw, name_override="y")
+        m = Module()
+        m.comb += y.eq(build_ast(w["expr"], ss))
+        return m.get_fragment(), ss, y
+    fA, sA, yA = build()
+    nl = Netlist(fA, clocks=())
+    for s, v in zip(sA, w["env"]):
+        nl.set(s, v)
+    nl.settle()
+    sim = nl.getu(yA)
+    fB, sB, yB = build()
+    cap = L.convert_capture(fB, set(sB) | {yB})
+    ids, msigs, groups, secs = L.ser_module(cap)
+    name_ids = {cap.ns.get_name(s): ids.get(s) for s in msigs}
+    mt = L.parse_module(cap.text, name_ids)
+    pv = L.PyVSim(mt, name_ids)
+    for s, v in zip(sB, w["env"]):
+        pv.state[ids.get(s)] = v & ((1 << s.nbits) - 1)
+    pv.settle()
+    t = cap.text
+    body = t[t.index("// Combinatorial Logic"):t.index("// Synchronous Logic")]
+    return dict(simulator=sim, verilog=pv.state[ids.get(yB)], lean=None,
+                text=" ".join(l.strip() for l in body.splitlines() if l.strip() and not l.startswith("//")))
+
+
+def load_witnesses():
+    p = os.path.join(CORPUS, "witnesses.json")
+    if not os.path.exists(p):
+        return []
+    return json.load(open(p))["witnesses"]
+
+
+def corpus_run(ctx, dis):
+    n = 0
+    reproduced = []
+    for w in load_witnesses():
+        try:
+            r = run_witness(ctx, w)
+        except Exception as ex:
+            dis.append(Dis("corpus-exception", id=w["id"], error=repr(ex)[:300]))
+            continue
+        n += 1
+        ln = r["lean"]
+        if ln is not None:
+            # the Lean side must tell the same story as the real code / golden reading
+            if ln["printeq"] != "ok" or ln["storeF"] != r["simulator"] or ln["assignV"] != r["verilog"]:
+                dis.append(Dis("corpus-lean", id=w["id"], lean=ln, simulator=r["simulator"], verilog=r["verilog"],
+                               what="Lean model and real code / golden reading disagree on a corpus witness"))
+            if ln["fits"] and r["simulator"] != r["verilog"]:
+                dis.append(Dis("theorem-contradicted", id=w["id"], lean=ln))
+        if w["status"] == "regression":
+            if r["simulator"] != r["verilog"] or r["simulator"] != w["simulator"] or ("text" in w and r["text"] != w["text"]):
+                dis.append(Dis("corpus-regression", id=w["id"], got=r, expected={k: w[k] for k in ("simulator", "verilog")},
+                               what=w["what"]))
+        else:
+            if r["simulator"] != r["verilog"]:
+                reproduced.append(w["id"])
+                if (r["simulator"], r["verilog"]) != (w["simulator"], w["verilog"]):
+                    ctx.cov.notes.append("witness %s diverges with other values than recorded: %s" % (w["id"], r))
+            else:
+                ctx.cov.notes.append("finding witness %s no longer reproduces (simulator = verilog = %s, text %s)" % (
+                    w["id"], r["simulator"], r["text"]))
+    ctx.cov.add_cases("corpus witnesses (%d findings reproduce)" % len(reproduced), n, n, exhaustive=True)
+    ctx.reproduced = reproduced
+    ctx.log("corpus: %d witnesses, findings that reproduce: %s" % (n, ", ".join(reproduced)))
+
 
 def correspond(ctx):
     dis = []
     quick = ctx.tier == "quick"
+    corpus_run(ctx, dis)
     l1_random(ctx, 600 if quick else 6000, dis)
     if len(dis) <= 10:
         l2_random(ctx, 40 if quick else 400, 40 if quick else 120, dis)
@@ -813,7 +935,30 @@ def search(ctx, disagreements, proof_info):
 
 
 def probes(ctx):
-    return []
+    """Replay the witness of every finding.  Only findings listed in known_findings.json are handed to the
+    runner (an unlisted failing probe would be reported as a violation; the candidates are reported to the
+    coordinator and recorded in the evidence notes until they are listed or fixed)."""
+    out = []
+    listed = {e.get("id") for e in ctx.known}
+    lean = ctx.lean
+    ctx.lean = None          # probes use the real code and the python golden reading only
+    try:
+        for w in load_witnesses():
+            if w["status"] != "finding":
+                continue
+            try:
+                r = run_witness(ctx, w)
+                fails = r["simulator"] != r["verilog"]
+                what = "%s: simulator stores %s, Verilog text %r stores %s" % (w["what"], r["simulator"], r["text"], r["verilog"])
+            except Exception as ex:
+                fails, what = True, "probe crashed: %r" % (ex,)
+            if w["id"] in listed:
+                out.append((w["id"], fails, what))
+            elif fails:
+                ctx.cov.notes.append("CANDIDATE-FINDING (not yet in known_findings.json) " + w["id"] + ": " + what)
+    finally:
+        ctx.lean = lean
+    return out
 
 
 def replay(ctx, payload):
